@@ -35,6 +35,11 @@ var syncReplyTimeout = 10 * time.Second
 // own channel is in the Signing phase, the ongoing update is discarded so that
 // the channel is reverted to the Acting phase.
 func (c *Client) handleSyncMsg(peer map[wallet.BackendID]wire.Address, msg *ChannelSyncMsg) {
+	if msg.CurrentTX.State == nil {
+		// A transaction without state is decodable but names no channel.
+		c.logPeer(peer).Error("received sync message without state")
+		return
+	}
 	log := c.logChan(msg.ID()).WithField("peer", peer)
 	ch, ok := c.channels.Channel(msg.ID())
 	if !ok {
